@@ -28,6 +28,12 @@ func verbatimTrace(v ssa.Value) (leaves []ssa.Value, impure []ssa.Value) {
 		switch x := v.(type) {
 		case *ssa.Const, *ssa.Parameter, *ssa.Field, *ssa.Global:
 			leaves = append(leaves, v)
+		case *ssa.Extract:
+			if _, ok := x.Tuple.(*ssa.Next); ok {
+				leaves = append(leaves, v) // key / element of a range loop
+				return
+			}
+			impure = append(impure, v)
 		case *ssa.FreeVar:
 			if b := freeVarBinding(x); b != nil {
 				back(b, d+1)
@@ -289,6 +295,11 @@ func ruleAggLabelNamesVerbatim(r *Run) {
 				if _, ok := l.(*ssa.Parameter); !ok {
 					if f, _, ok := loadOfField(l); ok && f == "name" {
 						continue // copied from another entry
+					}
+					if ex, ok := l.(*ssa.Extract); ok && ex.Index == 1 {
+						if _, isNext := ex.Tuple.(*ssa.Next); isNext {
+							continue // the key of a range over the label map
+						}
 					}
 					good = false
 					o.Fail(r.pos(st.Pos()), "the entry name is %s, not the label", describe(l, 0))
@@ -610,7 +621,8 @@ func ruleLabelDurationGoSyntax(r *Run) {
 	}
 	good := true
 	n := 0
-	for _, gf := range funcGroup(fn) {
+	grp := funcGroup(fn)
+	for _, gf := range grp {
 		if pkgOfFunc(gf) != pkgOfFunc(fn) {
 			continue
 		}
@@ -627,6 +639,22 @@ func ruleLabelDurationGoSyntax(r *Run) {
 				continue
 			}
 			n++
+			if staticCallee(c) == nil && !c.Common().IsInvoke() {
+				// a conversion handed over as a function value: every function it can be must be time.ParseDuration
+				fns, ok := resolveFuncValue(c.Common().Value, grp, 0)
+				if !ok || len(fns) == 0 {
+					good = false
+					o.Undecide(r.pos(c.Pos()), "the conversion is a function value that could not be resolved: %s", describe(c.Common().Value, 0))
+					continue
+				}
+				for _, f := range fns {
+					if f.Pkg == nil || f.Pkg.Pkg.Path() != "time" || f.Name() != "ParseDuration" {
+						good = false
+						o.Fail(r.pos(c.Pos()), "the label value is converted with %s", f.String())
+					}
+				}
+				continue
+			}
 			pk, nm := calleePkgName(c)
 			if pk != "time" || nm != "ParseDuration" {
 				good = false
@@ -746,12 +774,20 @@ func ruleUnpackEntryNoSentinel(r *Run) {
 		return
 	}
 	var grp []*ssa.Function
-	for _, gf := range funcGroup(fn) {
-		if pkgOfFunc(gf) == pkgOfFunc(fn) && recvNamedOf(gf) != "LabelSet" {
-			grp = append(grp, gf)
+	inGrp := map[*ssa.Function]bool{}
+	addGrp := func(root *ssa.Function) {
+		for _, gf := range funcGroup(root) {
+			if pkgOfFunc(gf) == pkgOfFunc(fn) && recvNamedOf(gf) != "LabelSet" && !inGrp[gf] {
+				inGrp[gf] = true
+				grp = append(grp, gf)
+			}
 		}
 	}
-	// decoded: results of Decoder.Str and the local variables holding them
+	addGrp(fn)
+	if h, _ := unpackFieldHandler(fn); h != nil {
+		addGrp(h) // the per-field handler may be a method value or a named function
+	}
+	// decoded: results of Decoder.Str and the variables, fields and pointed-to cells holding them
 	isDecoded := func(v ssa.Value) bool {
 		ex, ok := v.(*ssa.Extract)
 		if !ok || ex.Index != 0 {
@@ -765,7 +801,38 @@ func ruleUnpackEntryNoSentinel(r *Run) {
 		return nm == "Str" || nm == "StrBytes" || nm == "StrAppend"
 	}
 	nDecoded := 0
+	// a storage class: a local variable (also as seen by closures), a struct field, or what a pointer
+	// parameter points to (then also the variables whose address the call sites pass)
+	type fieldKey struct {
+		t types.Type
+		i int
+	}
+	cellT := map[*ssa.Alloc]bool{}
+	fieldT := map[fieldKey]bool{}
+	paramT := map[*ssa.Parameter]bool{}
+	cellOf := func(addr ssa.Value) *ssa.Alloc {
+		switch a := addr.(type) {
+		case *ssa.Alloc:
+			return a
+		case *ssa.FreeVar:
+			al, _ := freeVarBinding(a).(*ssa.Alloc)
+			return al
+		}
+		return nil
+	}
 	var tainted func(v ssa.Value, d int) bool
+	addrTainted := func(addr ssa.Value) bool {
+		if al := cellOf(addr); al != nil {
+			return cellT[al]
+		}
+		switch a := addr.(type) {
+		case *ssa.FieldAddr:
+			return fieldT[fieldKey{deref(a.X.Type()), a.Field}]
+		case *ssa.Parameter:
+			return paramT[a]
+		}
+		return false
+	}
 	tainted = func(v ssa.Value, d int) bool {
 		if d > 8 {
 			return false
@@ -784,30 +851,51 @@ func ruleUnpackEntryNoSentinel(r *Run) {
 		case *ssa.Convert:
 			return tainted(x.X, d+1)
 		case *ssa.UnOp:
-			if x.Op != token.MUL {
-				return false
+			if x.Op == token.MUL {
+				return addrTainted(x.X)
 			}
-			var al *ssa.Alloc
-			switch a := x.X.(type) {
-			case *ssa.Alloc:
-				al = a
-			case *ssa.FreeVar:
-				al, _ = freeVarBinding(a).(*ssa.Alloc)
-			}
-			if al == nil {
-				return false
-			}
-			for _, w := range cellWrites(al) {
-				if tainted(w, d+1) {
-					return true
-				}
-			}
+		case *ssa.Field:
+			return fieldT[fieldKey{x.X.Type(), x.Field}]
 		case *ssa.Call:
 			if b, ok := x.Call.Value.(*ssa.Builtin); ok && b.Name() == "len" && len(x.Call.Args) == 1 {
 				return tainted(x.Call.Args[0], d+1)
 			}
 		}
 		return false
+	}
+	for round := 0; round < 4; round++ {
+		for _, gf := range grp {
+			allInstrs(gf, func(in ssa.Instruction) {
+				switch x := in.(type) {
+				case *ssa.Store:
+					if !tainted(x.Val, 0) {
+						return
+					}
+					if al := cellOf(x.Addr); al != nil {
+						cellT[al] = true
+					}
+					switch a := x.Addr.(type) {
+					case *ssa.FieldAddr:
+						fieldT[fieldKey{deref(a.X.Type()), a.Field}] = true
+					case *ssa.Parameter:
+						paramT[a] = true
+					}
+				case ssa.CallInstruction:
+					// the address of a variable handed to a helper whose parameter receives decoded text
+					callee := staticCallee(x)
+					if callee == nil || !inGrp[callee] {
+						return
+					}
+					for i, a := range x.Common().Args {
+						if i < len(callee.Params) && paramT[callee.Params[i]] {
+							if al := cellOf(a); al != nil {
+								cellT[al] = true
+							}
+						}
+					}
+				}
+			})
+		}
 	}
 	good := true
 	for _, gf := range grp {
@@ -941,4 +1029,45 @@ func ruleDropKeepAlwaysScan(r *Run) {
 			o.OK("%d scan site(s) before every return", len(scans)).At(r.pos(fn.Pos()))
 		}
 	}
+}
+
+// resolveFuncValue: the functions a function-typed value can be: a function, a closure, or a
+// parameter of a helper followed to the arguments of all the helper's call sites within the group.
+func resolveFuncValue(v ssa.Value, grp []*ssa.Function, depth int) ([]*ssa.Function, bool) {
+	if depth > 4 {
+		return nil, false
+	}
+	switch x := stripTypeOnly(v).(type) {
+	case *ssa.Function:
+		return []*ssa.Function{x}, true
+	case *ssa.MakeClosure:
+		if f, ok := x.Fn.(*ssa.Function); ok {
+			return []*ssa.Function{f}, true
+		}
+	case *ssa.Parameter:
+		host := x.Parent()
+		idx := -1
+		for i, hp := range host.Params {
+			if hp == x {
+				idx = i
+			}
+		}
+		var out []*ssa.Function
+		sites := 0
+		for _, gf := range grp {
+			for _, c := range callsIn(gf) {
+				if staticCallee(c) != host || idx < 0 || idx >= len(c.Common().Args) {
+					continue
+				}
+				sites++
+				fs, ok := resolveFuncValue(c.Common().Args[idx], grp, depth+1)
+				if !ok {
+					return nil, false
+				}
+				out = append(out, fs...)
+			}
+		}
+		return out, sites > 0
+	}
+	return nil, false
 }
